@@ -47,6 +47,7 @@ type Obligation struct {
 	Res    SolverResult
 	Cover  bool // a cover query: expected sat
 	BackEdge bool // cover of a loop back edge
+	LoopHdr  int  // header block of that loop
 	Canary bool // expected to fail (sat/unknown), never unsat
 }
 
